@@ -16,6 +16,8 @@ for p in $PATCHES; do
   name=$(basename "$p" .patch)
   rsync -a --delete --exclude _build --exclude .git "${VERIF_REPO_ORIG:-/repo}/" "$SCR/repo/"
   (cd "$SCR/repo" && patch -p1 -s < "$p") || { echo "$name: PATCH FAILED" >> "$OUT"; continue; }
+  # rsync restores the old mtimes: make sure every file any mutant touches is recompiled
+  for f in $(grep -h '^+++ b/' "$ROOT"/selftest/C19/*.patch | sed 's/^+++ b\///' | sort -u); do touch "$SCR/repo/$f"; done
   t0=$(date +%s)
   VERIF_REPO=$SCR/repo timeout 1800 "$ROOT/check" C19 --tier quick > "$SCR/$name.log" 2>&1
   rc=$?
